@@ -186,7 +186,11 @@ func (e *Enc) encodeBody() {
 			switch p.Type().Underlying().(type) {
 			case *types.Pointer, *types.Map:
 				e.ptrParams = append(e.ptrParams, s.T)
+				e.assumeGlobal(app(SBool, "ref.old", app(SInt, "ref.root", s.T)), "parameter "+p.Name()+" was allocated before the call")
 			}
+		}
+		if sv, ok := v.(SliceV); ok {
+			e.assumeGlobal(app(SBool, "ref.old", app(SInt, "ref.root", sv.Base)), "parameter "+p.Name()+" was allocated before the call")
 		}
 	}
 	if fn.Signature.Recv() != nil && len(fn.Params) > 0 {
